@@ -302,8 +302,10 @@ def typePriceName : Nat → Option String
 
 def listLen (v : String) : Nat := if v == "-" || v == "" then 0 else (v.splitOn ",").length
 
+/-- `PayForSymbol`: by the number of BYTES of the ticker (`len(symbol)`; tickers that pass `allowSymbol` are ASCII, but the price
+    is computed before that check). -/
 def tickerPrice (s : State) (sym : String) : Int :=
-  match sym.length with
+  match sym.utf8ByteSize with
   | 3 => priceOf s "create_ticker3" | 4 => priceOf s "create_ticker4" | 5 => priceOf s "create_ticker5"
   | 6 => priceOf s "create_ticker6" | _ => priceOf s "create_ticker7_10"
 
@@ -361,6 +363,9 @@ def ready (t : TxIn) (com : Com) (body : List Move) (tags : List (String × Stri
 
 def oneBip : Int := 1000000000000000000
 
+/-- `x`, plus `extra` when the gas coin is `coin` (the usual "total spent in the gas coin" of the balance checks). -/
+def TxIn.addIfGas (t : TxIn) (coin : Coin) (x extra : Int) : Int := if t.gasCoin == coin then x + extra else x
+
 /-! ### Guards on moves (who may be debited, which moves a rejected transaction may make) -/
 
 /-- Who may be debited by a transaction's own moves: its sender (for a check redemption also the check issuer,
@@ -385,6 +390,21 @@ def Move.debitOk (sender : Addr) (issuer : Option Addr) : Move → Bool
   | .poolBurn a _ _ _ _ _ _ => a == sender
   | .orderAdd a o => a == sender && o.owner == sender
   | .orderRemove a o => a == sender && o.owner == sender
+
+/-- The coin a move registers (mirrors the `createCoin` primitive in `Move.prims`). -/
+def Move.newCoin : Move → Option CoinInfo
+  | .createCoin _ ci => if ci.id = 0 then none else some ci
+  | .poolCreate _ _ lp => if lp.id = 0 ∨ lp.reserve ≠ 0 then none else some lp
+  | _ => none
+
+def newCoins (ms : List Move) : List CoinInfo := ms.filterMap Move.newCoin
+
+/-- Coin-registry guard on a transaction's moves: at most one new coin, and it takes the next id (`GetNextCoinID`). -/
+def freshIdsOk (s : State) (ms : List Move) : Bool :=
+  match newCoins ms with
+  | [] => true
+  | [ci] => ci.id == s.ncoins + 1
+  | _ => false
 
 def Move.isSetNonce : Move → Bool
   | .admin (.setNonce _ _) => true
